@@ -89,7 +89,12 @@ Inductive qobs : Type :=
 | QTreeHeight (h : nat)
 | QRoot (r : rid)
 | QIsRoot (y : rid) (b : bool)
-| QHeightOf (y : rid) (h : nat).
+| QHeightOf (y : rid) (h : nat)
+(* what the replica's Kauri module did with its tree when it handled a proposal: the ids it
+   handed to Sender.Sub / proposed to ([] = no Sub call), and whether it sent its own
+   contribution to the parent before returning *)
+| QForwardsTo (l : list rid)
+| QSendsAtOnce (b : bool).
 
 Definition check_qobs (t : tree) (q : qobs) : bool :=
   match q with
@@ -103,6 +108,8 @@ Definition check_qobs (t : tree) (q : qobs) : bool :=
   | QRoot r => match root t with Ok r' => N.eqb r r' | _ => false end
   | QIsRoot y b => Bool.eqb b (is_root t y)
   | QHeightOf y h => Nat.eqb h (height_of t y)
+  | QForwardsTo l => ids_eqb l (replica_children t)
+  | QSendsAtOnce b => Bool.eqb b (match replica_children t with [] => true | _ => false end)
   end.
 
 (* (position list, branch factor, the queries in the order they were made: (vantage, answer)) *)
